@@ -112,7 +112,13 @@ def _content(body, keep):
 
 
 def body_items(body):
-	return [bytes.fromhex(x) for x in body.get('items', [])]
+	"""the octets each piece stands for; items are hex of UTF-8; with body['charset'] the TEXT pieces go out in that charset (Body.encoding)"""
+	items = [bytes.fromhex(x) for x in body.get('items', [])]
+	cs = body.get('charset')
+	if cs:
+		strs = [True] * len(items) if body['t'] == 'text' else (body.get('strs') or [False] * len(items))
+		items = [(x.decode('utf-8').encode(cs) if s else x) for x, s in zip(items, strs)]
+	return items
 
 
 def body_content(body):
@@ -136,11 +142,186 @@ def coq_source(body):
 	raise ValueError(t)
 
 
+def _set_uri(m, case, alt=0):
+	u = m.uri
+	if case.get('host'):
+		u.scheme = case.get('scheme', 'http')
+		u.host = case['host']
+		if case.get('port'):
+			u.port = case['port']
+	if alt % 2:
+		# the path as one text (segments joined the way URI.path_segments documents it) instead of the segment list
+		u.path = u'/'.join(s.replace(u'/', u'%2f') for s in case['segs'])
+	else:
+		u.path_segments = case['segs']
+	if case.get('query') is not None:
+		u.query = [tuple(p) for p in case['query']] if alt % 2 == 0 else tuple(tuple(p) for p in case['query'])
+
+
+def _set_status(m, case, alt=0):
+	code, reason = case['status'], case.get('reason')
+	if reason is None:
+		m.status = code
+	elif alt % 4 == 1:
+		m.status = code
+		m.status.reason = reason
+	elif alt % 4 == 2:
+		m.status = (999 if code != 999 else 998, reason)
+		m.status.code = code
+	elif alt % 4 == 3:
+		m.status = (code, reason.encode('ascii'))
+	else:
+		m.status = (code, reason)
+
+
+def _set_headers(m, case, alt=0):
+	hd = case.get('hdrs', [])
+	names = [n.lower() for n, _ in hd]
+	if alt % 4 == 1 and len(set(names)) == len(names):
+		m.headers = dict((name, bytes.fromhex(value)) for name, value in hd)   # Headers.set: clear + update
+	elif alt % 4 == 2 and len(set(names)) == len(names):
+		m.headers.update(dict((name, bytes.fromhex(value)) for name, value in hd))
+	elif alt % 4 == 3:
+		for name, value in hd:
+			m.headers.pop(name, None)
+			m.headers.setdefault(name, bytes.fromhex(value))
+	else:
+		for name, value in hd:
+			m.headers[name] = bytes.fromhex(value)
+	for name, text in case.get('thdrs', []):
+		m.headers[name] = text   # text: Latin-1 as it is, anything else as an RFC 2047 encoded word
+
+
+def _finish(m, case):
+	for name, value in case.get('trailer', []):
+		m.body.trailer[name] = bytes.fromhex(value)
+	if case.get('coding'):
+		m.headers['Content-Encoding'] = case['coding']
+		if (case['k'] == 'req' or case.get('body_coding')) and case['coding'].lower() in ('gzip', 'deflate'):
+			m.body.content_encoding = case['coding']
+
+
+DECOY_BODY = {'t': 'list', 'items': [b'decoy \xc3\xa4 '.hex(), b'body\r\n\r\n'.hex()], 'strs': [True, False]}
+
+
+def _decoy(case, first_use):
+	"""a message of the same kind that differs from the case in every parameter the caller sets (what the object held before)"""
+	d = {'k': case['k'], 'version': [1, 0] if list(case['version']) == [1, 1] else [1, 1], 'body': DECOY_BODY, 'trailer': [],
+		'hdrs': [[n, b'decoy-value'.hex()] for n, _ in case.get('hdrs', [])] + [['X-Decoy', b'1'.hex()], ['Content-Language', b'tlh'.hex()]],
+		'thdrs': [[n, u'decoy'] for n, _ in case.get('thdrs', [])], 'coding': first_use.get('coding')}
+	if case['k'] == 'req':
+		d.update(method='PUT' if case['method'] != 'PUT' else 'POST', segs=['', 'decoy', u'pfad \xe4', ''], query=[['decoy', '1'], ['x', 'y z']], host='decoy.example', port=8081)
+	else:
+		d.update(status=404 if case['status'] != 404 else 410, reason='Decoy Reason', rmethod=case.get('rmethod', 'GET'))
+	return d
+
+
+def _routed(case, keep, route):
+	"""the message of the case reached on an object that has a history (class: statefulness).  What is composed afterwards must be what a
+	fresh object built from the same final data gives.
+	  overwrite : every parameter first holds another value, then the final one is assigned (same object, nothing composed in between)
+	  reuse     : the object was first used for another message - assigned, prepared, composed to the end - then every parameter is assigned anew
+	              (headers as a whole: message.headers = {...})
+	  shared    : the content object (list / tuple / BytesIO / file / bytes) is also the body of another message, which was composed before
+	  sharedbody: message.body = other.body, the Body object of another message which was prepared and composed before
+	  grown     : the content object (list / BytesIO) is assigned empty and filled afterwards, through its own interface or through body.write
+	  alt       : the same final data through the other public setters (status / reason attributes, bytes forms, text protocol, path as text,
+	              headers through update / setdefault / assignment of a dict)"""
+	from httoop import Request, Response
+	from httoop.semantic.request import ComposedRequest
+	from httoop.semantic.response import ComposedResponse
+	how, alt, first = route.get('how'), int(route.get('alt', 0)), route.get('first', {})
+	is_req = case['k'] == 'req'
+
+	def composed(m, rmethod='GET'):
+		return ComposedRequest(m) if is_req else ComposedResponse(m, Request(rmethod, '/'))
+
+	def assign(m, d, alt, content):
+		if alt % 3 == 1:
+			m.protocol = 'HTTP/%d.%d' % tuple(d['version'])
+		elif alt % 3 == 2:
+			m.protocol = b'HTTP/%d.%d' % tuple(d['version'])
+		else:
+			m.protocol = tuple(d['version'])
+		if is_req:
+			m.method = d['method'] if alt % 2 == 0 else d['method'].encode('ascii')
+			_set_uri(m, d, alt)
+		else:
+			_set_status(m, d, alt)
+		_set_headers(m, d, alt)
+		if d['body'].get('charset'):
+			m.body.encoding = d['body']['charset']
+		if alt % 2:
+			m.body.set(content)
+		else:
+			m.body = content
+		if not d.get('coding'):
+			# no content coding (any more): the field is taken out, and what the caller may have put on the body himself is taken back
+			m.headers.pop('Content-Encoding', None)
+			if is_req:
+				m.body.content_encoding = None
+		_finish(m, d)
+
+	m = Request() if is_req else Response()
+	if how in ('overwrite', 'reuse'):
+		decoy = _decoy(case, first)
+		assign(m, decoy, alt + 1, _content(decoy['body'], keep))
+		if how == 'reuse':
+			c0 = composed(m)
+			if first.get('chunked'):
+				c0.chunked = True
+			c0.prepare()
+			b''.join(c0)
+			if is_req:
+				m.uri = '/'   # a new target: the URI as a whole, then its parts
+			m.headers = {}
+		else:
+			for n in ('X-Decoy', 'Content-Language'):
+				del m.headers[n]
+			if is_req:
+				m.uri.port = None
+				m.uri.query_string = u''
+		assign(m, case, alt, _content(case['body'], keep))
+	elif how == 'grown':
+		# the content object is handed over EMPTY and filled afterwards through its own interface (list.append / file write), before anything is prepared
+		b = case['body']
+		pieces = _content(dict(b, t='list'), keep)
+		# (an empty list is replaced by Body.set with a buffer of its own, like every false content: the list starts with its first piece)
+		content = pieces[:1] if b['t'] == 'list' else io.BytesIO()
+		if b['t'] == 'list':
+			pieces = pieces[1:]
+		assign(m, case, alt, content)
+		for piece in pieces:
+			if b['t'] == 'list':
+				content.append(piece)
+			elif alt % 2:
+				m.body.write(piece if isinstance(piece, bytes) else piece.encode('utf-8'))
+			else:
+				content.write(piece if isinstance(piece, bytes) else piece.encode('utf-8'))
+		if b['t'] != 'list':
+			content.seek(b.get('pos', 0))
+	elif how in ('shared', 'sharedbody'):
+		content = _content(case['body'], keep)
+		other = Request('POST', 'http://other.example/o') if is_req else Response(201)
+		other.body = content
+		c0 = composed(other)
+		if first.get('chunked'):
+			c0.chunked = True
+		c0.prepare()
+		b''.join(c0)
+		assign(m, case, alt, other.body if how == 'sharedbody' else content)
+	else:
+		assign(m, case, alt, _content(case['body'], keep))
+	return m, composed(m, case.get('rmethod', 'GET'))
+
+
 def build(case, keep):
 	"""-> (message, composer).  Only the public API is used."""
 	from httoop import Request, Response
 	from httoop.semantic.request import ComposedRequest
 	from httoop.semantic.response import ComposedResponse
+	if case.get('route'):
+		return _routed(case, keep, case['route'])
 	# two ways of building the same message through the public API: attribute assignment after construction, or (for one case in
 	# three, chosen by a checksum of the case so that a replay builds it the same way) headers, body and protocol as constructor arguments
 	import json as _json
@@ -149,7 +330,7 @@ def build(case, keep):
 	ctor = case.get('ctor')
 	if ctor is None:
 		ctor = _zlib.crc32(_json.dumps(case, sort_keys=True, default=str).encode()) % 3 == 0
-	ctor = bool(ctor) and len(set(names)) == len(names) and not case.get('trailer') and not case.get('coding')
+	ctor = bool(ctor) and len(set(names)) == len(names) and not case.get('trailer') and not case.get('coding') and not case.get('thdrs') and not case['body'].get('charset')
 	if ctor:
 		hd = dict((name, bytes.fromhex(value)) for name, value in case.get('hdrs', []))
 		content = _content(case['body'], keep)
@@ -184,7 +365,11 @@ def build(case, keep):
 	if not ctor:
 		for name, value in case.get('hdrs', []):
 			m.headers[name] = bytes.fromhex(value)
+		if case['body'].get('charset'):
+			m.body.encoding = case['body']['charset']   # the charset of the body's media type: text is sent in it
 		m.body = _content(case['body'], keep)
+	for name, text in case.get('thdrs', []):
+		m.headers[name] = text   # text: Latin-1 as it is, anything else as an RFC 2047 encoded word
 	for name, value in case.get('trailer', []):
 		m.body.trailer[name] = bytes.fromhex(value)
 	if case.get('coding'):
